@@ -12,7 +12,7 @@ DEFAULTS = dict(
     max_states=12, max_depth=4, n_events=3, p_orth=0.3, p_compound=0.45, p_hist=0.25, p_final=0.15,
     p_eventless=0.25, p_internal=0.2, p_guard=0.6, min_trans=2, max_trans=14,
     p_send=0.25, p_state_send=0.08, p_notify=0.3, delays=(0, 0, 0, 0.125, 1, 1, 2, 5),
-    contracts=False, p_contract=0.5, timed=False, mode=None, priorities=(-1, 0, 0, 0, 1, 2),
+    contracts=False, p_contract=0.5, timed=False, timed_plain=0.0, mode=None, priorities=(-1, 0, 0, 0, 1, 2),
     min_states=3, root_basic_ok=0.05,
 )
 
@@ -106,6 +106,7 @@ def gen_chart(rnd, **kw):
         if problems:
             raise AssertionError('generator produced ill-formed chart: %s' % problems)
         ch['mode'] = mode
+        ch['timed_plain'] = bool(o['timed_plain'])
         return ch
     raise AssertionError('generator failed to produce a chart')
 
@@ -232,6 +233,11 @@ def _gen_transitions(rnd, ch, o):
         if o['timed'] and rnd.random() < 0.7:
             d['tguard'] = dict(after=rnd.choice(TIMED_D) if rnd.random() < 0.7 else None,
                                idle=rnd.choice(TIMED_D) if rnd.random() < 0.5 else None)
+        elif o['timed_plain'] and rnd.random() < o['timed_plain']:
+            # plain time predicates (no probe, so that several transitions can carry textually identical guards)
+            a = rnd.choice(PLAIN_D) if rnd.random() < 0.75 else None
+            i = rnd.choice(PLAIN_D) if (a is None or rnd.random() < 0.35) else None
+            d['tguard'] = dict(after=a, idle=i, plain=True)
         trans.append(d)
         return d
 
@@ -361,6 +367,7 @@ def _gen_transitions(rnd, ch, o):
 
 
 TIMED_D = (0, 0.125, 0.5, 1, 1, 1.5, 2, 2, 3, 5)
+PLAIN_D = (1, 1, 2, 2, 5)
 
 
 def _gen_contracts(rnd, ch, o):
